@@ -1,4 +1,95 @@
-(* C04 — placeholder while the pipeline is brought up *)
-From FH Require Import Model.Base Model.ClientConn.
-Example C04_placeholder : True.
-Proof. exact I. Qed.
+(* C04 — Client calls return their own response, never another request's bytes.
+   Statements only; proofs live in Proof/ClientConnProof.v.
+
+   HostClient ([reach max s]): s is reachable from the empty pool by ANY interleaving, for any number of calls, connections and
+   any server, of: AcquireConn (pooled or dialled) / req.Write / ReadLimitBody symbol by symbol (any caller options: HEAD,
+   StreamBody, SkipBody, Connection: close) / errors and deadlines at any point / the deferred release of a streamed body (reads,
+   premature EOF, CloseBodyStream, closeBodyStream(err)) / CloseConn | ReleaseConn / the cleaner, and of the server reading a
+   request, producing ANY response, sending it at any speed, closing at any point.  Assumptions visible in the model: the
+   server sends the wire form of its responses and nothing else ([wf_resp] in [srv_read]); a connection is lent to one call at a
+   time (C18; structural here). *)
+From FH Require Import Model.Base Model.ClientConn Spec.ClientConnSpec Proof.ClientConnProof.
+Open Scope nat_scope.
+Open Scope list_scope.
+
+(* every connection in the idle pool has no unanswered request, no unread inbound symbol, and nothing still to arrive
+   (nothing in flight, or the peer has closed) *)
+Theorem C04_pooled_conn_is_clean : forall max s, reach max s -> pool_clean s.
+Proof. exact pooled_clean. Qed.
+Print Assumptions C04_pooled_conn_is_clean.
+
+(* every successful call (incl. a streamed body at any moment, closed early or not) was given an initial part of the response
+   the server produced for ITS OWN request, so every delivered symbol carries the call's own tag *)
+Theorem C04_own_response : forall max s t o g,
+  reach max s -> delivered s t = Some (o, g) -> response_of s t o g /\ all_own t g.
+Proof. exact own_response. Qed.
+Print Assumptions C04_own_response.
+
+(* ... and all of it when the body was read in full (not streamed, not skipped, not an until-close body cut by the peer) *)
+Theorem C04_own_response_complete : forall max s t x kept,
+  reach max s -> s_thr s t = TDone x OOk kept ->
+  o_stream (x_opts x) = false -> o_skip (x_opts x) = false ->
+  exists r, s_ans s t = Some r /\ (h_fr (r_head r) <> FIdent -> x_got x = twire t (o_kind (x_opts x)) r).
+Proof. exact own_response_complete. Qed.
+Print Assumptions C04_own_response_complete.
+
+(* PipelineClient ([preach s]): any interleaving of callers enqueueing, the writer (deadline drop, write, push to chR, exit), the
+   reader (pop, resp.Read symbol by symbol with SkipBody for HEAD, failure, exit), the worker (dial, teardown, drain) and the
+   server (any delimited response per request, any speed, close at any point).  Caller timeouts do not touch the queues, so
+   they are not steps: they cannot reorder anything.  Every item signalled with a nil error was given exactly the wire form of
+   the response the server produced for its own request: the k-th response read is matched with the k-th request written. *)
+Theorem C04_pipeline_fifo : forall s id kd g,
+  preach s -> p_done s id = Some (kd, OOk, g) -> p_response_of s id kd g.
+Proof. exact pipeline_own_response. Qed.
+Print Assumptions C04_pipeline_fifo.
+
+(* a HEAD response consumes its head and nothing else, whatever Content-Length it announces *)
+Theorem C04_pipeline_head_no_body : forall s id g,
+  preach s -> p_done s id = Some (KHead, OOk, g) -> exists h, g = [(id, SHead h)].
+Proof. exact pipeline_head_no_body. Qed.
+Print Assumptions C04_pipeline_head_no_body.
+
+(* ---- non-vacuity ---------------------------------------------------------------------------------------------------------- *)
+Definition r2 : resp := mkResp (mkHead (FLen 2) false false) [Some (mkHead (FLen 1) false false); None].
+Definition r1 : resp := mkResp (mkHead (FLen 1) false false) [None].
+Definition stream_get : opts := mkOpts KGet false true false.
+
+(* a streamed body (limit 1 unit) closed after one unit, exactly where a crafted response starts: the connection is closed,
+   the next call dials; a call that reads to the end puts its connection back and the next call re-uses it *)
+Example C04_ex_early_close :
+  match run (init 1) [LAcquire 0 stream_get None; LWrite 0 false; LSrvRead (HeldBy 0) r2; LSrvSend (HeldBy 0); LSrvSend (HeldBy 0);
+                      LSrvSend (HeldBy 0); LRead 0; LStreamRead 0; LCloseStream 0 false] with
+  | Some s => (length (s_idle s), delivered s 0) = (0, Some (stream_get, [(0, SHead (r_head r2)); (0, SBody (Some (mkHead (FLen 1) false false)))]))
+  | None => False
+  end.
+Proof. vm_compute. reflexivity. Qed.
+
+Example C04_ex_read_to_end_reuse :
+  match run (init 1) [LAcquire 0 stream_get None; LWrite 0 false; LSrvRead (HeldBy 0) r2; LSrvSend (HeldBy 0); LSrvSend (HeldBy 0);
+                      LSrvSend (HeldBy 0); LRead 0; LStreamRead 0; LStreamRead 0; LCloseStream 0 false;
+                      LAcquire 1 plain_get (Some 0); LWrite 1 false; LSrvRead (HeldBy 1) r1; LSrvSend (HeldBy 1); LSrvSend (HeldBy 1);
+                      LRead 1; LRead 1] with
+  | Some s => (map c_id (s_idle s), option_map snd (delivered s 1)) = ([0], Some (twire 1 KGet r1))
+  | None => False
+  end.
+Proof. vm_compute. reflexivity. Qed.
+
+(* GET with resp.SkipBody and a response that carries a (crafted) body: the body stays on the wire, so the connection is closed,
+   not pooled (before the clause for skipped bodies was added to RoundTrip this history poisoned the pool) *)
+Example C04_ex_skip_get_closes :
+  match run (init 0) [LAcquire 0 skip_get None; LWrite 0 false; LSrvRead (HeldBy 0) crafted_resp; LSrvSend (HeldBy 0); LRead 0] with
+  | Some s => (length (s_idle s), s_thr s 0) = (0, TDone (mkCtx skip_get 0 false (Some (r_head crafted_resp)) [(0, SHead (r_head crafted_resp))]) OOk false)
+  | None => False
+  end.
+Proof. vm_compute. reflexivity. Qed.
+
+(* pipeline: GET and HEAD written back to back, answered in order; the HEAD answer announces 2 units and carries none *)
+Example C04_ex_pipeline :
+  match prun pinit [PCall KGet; PCall KHead; PCall KGet; PDial; PWPop false true; PWPush; PWPop false true; PWPush; PWPop false true; PWPush;
+                    PSrvRead r2; PSrvRead r2; PSrvRead r2; PSrvSend; PSrvSend; PSrvSend; PSrvSend; PSrvSend; PSrvSend; PSrvSend;
+                    PRPop; PRRead; PRRead; PRRead; PRPop; PRRead; PRPop; PRRead; PRRead; PRRead] with
+  | Some s => (p_done s 0, p_done s 1, p_done s 2) =
+              (Some (KGet, OOk, twire 0 KGet r2), Some (KHead, OOk, [(1, SHead (r_head r2))]), Some (KGet, OOk, twire 2 KGet r2))
+  | None => False
+  end.
+Proof. vm_compute. reflexivity. Qed.
